@@ -403,6 +403,58 @@ fn pipeline_scenarios(args: &Args, rep: &Report) {
     }
 }
 
+/// The in-band error report refused (validation error) or failing (I/O error) at the stream, with the
+/// process-wide one-per-second slot known to be free (this runs alone, after a pause): the entries
+/// after it are all delivered, once, in order, and at most one report is handed over within the second.
+fn refused_report_scenarios(rep: &Report) {
+    for (mode, name) in [(Outcome::Validation, "refused with a validation error"), (Outcome::Io, "failing with an I/O error")] {
+        std::thread::sleep(Duration::from_millis(1100));
+        rep.eval();
+        let sh = StreamShared::new(7);
+        sh.set_script(move |k| match k {
+            EntryKind::Id(id) if id % 2 == 1 => Outcome::Validation,
+            EntryKind::ErrorReport(_) => mode,
+            _ => Outcome::Ok,
+        });
+        let sh2 = sh.clone();
+        let done = std::thread::spawn(move || {
+            let (q, handle) = BackgroundQueueBuilder::new().capacity(64).flush_interval(Duration::from_millis(1)).build::<IdEntry>(sh2.stream());
+            for s in 0..10 {
+                q.append(IdEntry::new(0, s));
+            }
+            let flushed = progress_wait(|| sh2.log().iter().filter(|e| e.id().is_some()).count() == 10, Duration::from_secs(5));
+            drop(q);
+            if flushed {
+                handle.shut_down();
+            } else {
+                handle.forget();
+            }
+            flushed
+        })
+        .join();
+        let log = sh.log();
+        let ids: Vec<u64> = log.iter().filter_map(|e| e.id()).collect();
+        let reports = log.iter().filter(|e| matches!(e, Ev::Next { kind: EntryKind::ErrorReport(_), .. })).count();
+        let want: Vec<u64> = (0..10).map(|s| make_id(0, s)).collect();
+        if done.is_err() || ids != want {
+            rep.violation(
+                "entry-lost",
+                json!({"what": format!("no tracing subscriber; every other entry fails validation; the in-band error report is itself {name} by the stream: every appended entry must still be handed to the stream once, in order"),
+                       "entries_delivered": ids.len(), "appended": 10, "report_entries": reports, "shutdown_or_writer_panicked": done.is_err()}),
+            );
+            return;
+        }
+        if reports > 1 {
+            rep.violation(
+                "report-entry-rate",
+                json!({"what": format!("five validation failures within a few milliseconds, the in-band report {name}: at most one report entry per second may be handed to the stream"), "report_entries": reports}),
+            );
+            return;
+        }
+        rep.count("refused_report_scenarios", 1);
+    }
+}
+
 fn native_main(args: &Args, rep: &Report) {
     // subscriber=1: an ordinary subscriber; subscriber=2: a subscriber whose filter lets nothing
     // through (a subscriber IS installed, so errors go to tracing - and are filtered there - never in band)
@@ -555,6 +607,9 @@ fn native_main(args: &Args, rep: &Report) {
         drop(append);
     }
     pipeline_scenarios(args, rep);
+    if !subscriber && rep.violation_count() == 0 {
+        refused_report_scenarios(rep);
+    }
     // A subscriber installed AFTER a queue was built: from then on a validation failure must be
     // reported through tracing, not in band. (The global subscriber can be set once per process,
     // so this runs once, at the very end, when no other history is in flight.)
